@@ -54,6 +54,22 @@ func init() {
 	})
 }
 
+// C14 (slow targets): muxHandler connects to the channel's target on its own goroutine (no helper goroutine that could
+// be left behind with the connection it obtained when the handler has given up waiting).
+func init() {
+	extractors = append(extractors, func(o *out) {
+		b := o.w("C14.lean")
+		fd := findFunc(parse("internal/server/communicator.go"), "ConnectionHandler", "muxHandler")
+		v := calledUnderGo(fd, "OpenConnection")
+		if v == "absent" {
+			fail("communicator.go muxHandler: call of OpenConnection not found")
+		}
+		// a call inside a func literal that is not started with `go` (e.g. deferred) also counts as inline; a literal
+		// handed to `go` does not
+		fmt.Fprintf(b, "/-- communicator.go muxHandler: the target is dialled (channel.OpenConnection) on the handler's own goroutine -/\ndef muxDialInline : Bool := %v\n\n", v == "inline")
+	})
+}
+
 func callName(e ast.Expr) string {
 	if c, ok := e.(*ast.CallExpr); ok {
 		return src(c.Fun)
